@@ -7,6 +7,7 @@
       |plain| a multiple of BLOCK, an empty trailing block)
    3. new + initialize establish the invariant (the footer is parsed back)
    4. instance: the canonical format comp_format of a compressor with dec (comp x) = x *)
+From MLA Require Import Limit.
 From MLA Require Import Base Stream CompLayer.
 From Coq Require Import ZifyBool ZifyNat ZifyN.
 Open Scope N_scope.
@@ -104,6 +105,7 @@ Qed.
 
 Section CompProofs.
   Variables BLOCK LIMIT : N.
+  Local Hint Extern 0 Limit => exact LIMIT : typeclass_instances.
   Hypothesis HB : 0 < BLOCK.
   Hypothesis HB32 : BLOCK < 2 ^ 32.            (* UNCOMPRESSED_DATA_SIZE is a u32 *)
   Variable dec : bytes -> bytes.
@@ -509,6 +511,7 @@ End CompProofs.
 
 Section Canonical.
   Variables BLOCK LIMIT : N.
+  Local Hint Extern 0 Limit => exact LIMIT : typeclass_instances.
   Hypothesis HB : 0 < BLOCK.
   Hypothesis HB32 : BLOCK < 2 ^ 32.
   Variables comp dec : bytes -> bytes.
@@ -590,6 +593,7 @@ Qed.
 (* the canonical writer's format (nblocks |plain| blocks) *)
 Section CanonicalFormat.
   Variables BLOCK LIMIT : N.
+  Local Hint Extern 0 Limit => exact LIMIT : typeclass_instances.
   Hypothesis HB : 0 < BLOCK.
   Hypothesis HB32 : BLOCK < 2 ^ 32.
   Variables comp dec : bytes -> bytes.
